@@ -376,5 +376,5 @@ def run(ctx):
         if not (c['cls'] == 'Color666ToricCode' and c['size'][0] != c['size'][1])]
     ctx.run_cases(lin, chunk=4)
     if not quick:
-        from checks import c03_fuzz
-        c03_fuzz.run_atheris(ctx)
+        from checks import fuzz_c03
+        fuzz_c03.run_atheris(ctx)
